@@ -187,10 +187,40 @@ def check_C13(ctx):
 FRAMING_INV = ["Refines", "Insensitive", "Shape", "C07Projection", "EmitCase"]
 
 
-def framing_cases(ctx, kinds, maxlen, emit=True, liveness=True):
+def rand_framing_module(ctx, salt=0):
+    """Randomised alphabet for Framing.tla: three format versions drawn from the whole accepted range (negative, one digit,
+    thousands, up to 2^31-1) and four of the eleven headers; the plain kinds stay.  The model is the oracle."""
+    import random
+    rnd = random.Random(ctx.seed * 15485863 + 101 + salt * 32452843)
+    vers = set()
+    while len(vers) < 3:
+        vers.add(rnd.choice([rnd.randint(0, 20), rnd.randint(-30, -1), rnd.randint(21, 70000), rnd.randint(70001, 2147483647),
+                             -rnd.randint(31, 2147483647), 2147483647, -2147483647, 127, 128, 255, 256, 65535, 65536]))
+    secs = rnd.sample(["General", "Editor", "Metadata", "Difficulty", "Events", "TimingPoints", "Colours", "HitObjects",
+                       "Variables", "CatchTheBeat", "Mania"], 4)
+    text = ("----------------------------- MODULE RandFraming -----------------------------\n"
+            "(* generated by bin/plans.py (rand_framing_module) from VERIF_SEED = %d - do not edit.  Randomised alphabet for\n"
+            "   Framing: the model is the oracle. *)\n"
+            "EXTENDS Framing\n\n"
+            "RandKinds == PlainKinds \\cup {%s} \\cup {%s}\n"
+            "=============================================================================\n") % (
+                ctx.seed, ", ".join("Ver(%d)" % v for v in sorted(vers)), ", ".join('Hdr("%s")' % x for x in secs))
+    path = os.path.join(SPEC, "RandFraming.tla")
+    old = open(path).read() if os.path.exists(path) else None
+    if old != text:
+        with open(path, "w") as fh:
+            fh.write(text)
+    sany(ctx, "RandFraming")
+
+
+def framing_cases(ctx, kinds, maxlen, emit=True, liveness=True, rand=None):
     cfg = dict(spec="Spec", invariants=FRAMING_INV, properties=["StepAgrees"] + (["Terminates"] if liveness else []),
                constants=dict(LineKinds="<-" + kinds, MaxLen=str(maxlen), Emit="TRUE" if emit else "FALSE"))
-    r = tlc(ctx, "Framing", "MC_Framing_%s_%d" % (kinds, maxlen), cfg, workers=12, timeout=2400)
+    module = "Framing"
+    if rand is not None:
+        rand_framing_module(ctx, rand)
+        module = "RandFraming"
+    r = tlc(ctx, module, "MC_%s_%s_%d%s" % (module, kinds, maxlen, "_s%d" % rand if rand else ""), cfg, workers=12, timeout=2400)
     return r["lines"]
 
 
@@ -206,6 +236,9 @@ def check_C05(ctx):
         cases += framing_cases(ctx, "SmallKinds", 5, liveness=False)
     else:
         cases += framing_cases(ctx, "AllKinds", 3)
+    # seed-drawn versions (the whole accepted range) and headers
+    for salt in ((0, 1, 2, 3) if thorough else (0,)):
+        cases += framing_cases(ctx, "RandKinds", 4 if thorough else 3, liveness=False, rand=salt)
     # (2) spec -> impl: every file, several spellings, four encodings, RecordingDecoder + Beatmap vs reference driver
     summ = harness(ctx, ["framing", "replay", "--prop", "C05", "--spellings", "3" if thorough else "2"],
                    stdin_lines=cases, name="framing-replay", timeout=3600)
@@ -998,8 +1031,6 @@ def rand_records_module(ctx, section, nrecs, salt=0):
             cls = rnd.choice(["int", "int", "int", "float", "float", "max", "min", "over", "under", "big", "nan", "inf", "empty", "garbage", "cmt", "colon", "name"])
             if ty in ("f32", "f64") and cls in ("max", "min"):
                 cls = "float"                      # (2^31-1) * 100 does not fit TLC's integers
-            if ty == "f32" and cls in ("over", "under"):
-                cls = "float"                      # 2^31 is not representable in f32: outcome not determined by the statement
             if cls == "int":
                 lim = 99 if ty == "f32" else (200000 if ty == "f64" else 2147483647)
                 v = ("int", rnd.choice([0, 1, 2, 3, 4, 5, 6, 7, 8, -1, rnd.randint(-lim, lim), rnd.randint(-min(lim, 300), min(lim, 300))]), "")
